@@ -38,17 +38,17 @@ func (c *Cert) off() int {
 	return 0
 }
 
-func (c *Cert) Clone() *Cert     { return &Cert{Root: c.Root.Clone()} }
-func (c *Cert) Encode() []byte   { return c.Root.Encode() }
-func (c *Cert) TBS() *Node       { return c.Root.Children[0] }
-func (c *Cert) Serial() *Node    { return c.TBS().Children[c.off()] }
-func (c *Cert) InnerAlg() *Node  { return c.TBS().Children[c.off()+1] }
-func (c *Cert) Issuer() *Node    { return c.TBS().Children[c.off()+2] }
-func (c *Cert) Validity() *Node  { return c.TBS().Children[c.off()+3] }
-func (c *Cert) Subject() *Node   { return c.TBS().Children[c.off()+4] }
-func (c *Cert) SPKI() *Node      { return c.TBS().Children[c.off()+5] }
-func (c *Cert) OuterAlg() *Node  { return c.Root.Children[1] }
-func (c *Cert) SigBits() *Node   { return c.Root.Children[2] }
+func (c *Cert) Clone() *Cert       { return &Cert{Root: c.Root.Clone()} }
+func (c *Cert) Encode() []byte     { return c.Root.Encode() }
+func (c *Cert) TBS() *Node         { return c.Root.Children[0] }
+func (c *Cert) Serial() *Node      { return c.TBS().Children[c.off()] }
+func (c *Cert) InnerAlg() *Node    { return c.TBS().Children[c.off()+1] }
+func (c *Cert) Issuer() *Node      { return c.TBS().Children[c.off()+2] }
+func (c *Cert) Validity() *Node    { return c.TBS().Children[c.off()+3] }
+func (c *Cert) Subject() *Node     { return c.TBS().Children[c.off()+4] }
+func (c *Cert) SPKI() *Node        { return c.TBS().Children[c.off()+5] }
+func (c *Cert) OuterAlg() *Node    { return c.Root.Children[1] }
+func (c *Cert) SigBits() *Node     { return c.Root.Children[2] }
 func (c *Cert) SetIssuer(n *Node)  { c.TBS().Children[c.off()+2] = n }
 func (c *Cert) SetSubject(n *Node) { c.TBS().Children[c.off()+4] = n }
 func (c *Cert) SetSPKI(n *Node)    { c.TBS().Children[c.off()+5] = n }
@@ -206,9 +206,9 @@ func ParseCRL(b []byte) (*CRL, error) {
 	}
 	return r, nil
 }
-func (r *CRL) Clone() *CRL   { return &CRL{Root: r.Root.Clone()} }
+func (r *CRL) Clone() *CRL    { return &CRL{Root: r.Root.Clone()} }
 func (r *CRL) Encode() []byte { return r.Root.Encode() }
-func (r *CRL) TBS() *Node    { return r.Root.Children[0] }
+func (r *CRL) TBS() *Node     { return r.Root.Children[0] }
 func (r *CRL) off() int {
 	if ch := r.TBS().Children; len(ch) > 0 && ch[0].Is(TagInteger) {
 		return 1
